@@ -245,6 +245,16 @@ def gen_history(ctx, maxlen, allow_form_switch):
                     ops.append(r.choice(["x", "i1", "o2", "sq=2", "T%d,%d" % (r.choice(OK_SHEETS), r.choice(quiet_src))]))
                 ops.append(r.choice(["t%d,%d" % (i, jk), "t%d,%d" % (i, jk), "u%d,%d" % (i, r.choice(quiet_src))]))
             continue
+        if last_failed is False and r.random() < 0.05:
+            # the collator cache of the transformer's collation functor: same lang, case-order given, then not given
+            # (or the other one), on keys that differ only in case
+            names = {t[1]: i for i, t in enumerate(P.SHEETS)}
+            seq = r.choice([["sort-lang-upper", "sort-lang-plain"], ["sort-lang-lower", "sort-lang-plain"],
+                            ["sort-lang-upper", "sort-lang-lower", "sort-lang-plain"], ["sort-lang-plain", "sort-lang-upper", "sort-lang-plain"]])
+            d = r.choice([6, 7])
+            for nm in seq:
+                ops.append("T%d,%d" % (names[nm], d))
+            continue
         if x < 0.58 or last_failed is not False:
             if last_failed is not False and r.random() < 0.8:
                 # a failure is directly followed by successes that could observe a leak
